@@ -125,6 +125,8 @@ def _case(draw, op, light=False):
         targets = sorted(gen.EAM_TARGETS)
     elif op == "dlpoly_nr_not_multiple_of_4":
         targets = ["DLPOLY", "DL_POLY"]
+    elif op == "species_malformed_in_pair_model":
+        targets = list(gen.PAIR_TARGETS)
     elif op == "target_wrong_case":
         # the documented alternative spellings are spellings too: 'dl_poly' or 'LAMMPS_EAM_ALLOY' name no target
         targets = draw(st.sampled_from([["DL_POLY"], ["lammps_eam_alloy"], None]))
@@ -293,8 +295,8 @@ def mutate(case):
         for s_, j in _potdef_entries(secs):
             if s_[1][j][1] == "mutf 2.0":
                 s_[1][j][1] = "%s 2.0" % name
-        if site % 2:
-            pf[1].append(["otherf(r)", "r + 1.0"])
+        # (refused when it is registered with another formula; on its own such a model is accepted and works)
+        pf[1].append(["otherf(r)", "r + 1.0"])
     elif op == "table_named_like_pymath_function":
         _ensure_custom(secs, site)
         secs.append(["Table-Form:pymath.%s" % ["ceil", "floor", "fabs"][site % 3], [["x", "0.0 1.0 2.0 3.0 4.0"], ["y", "5.0 4.0 3.0 2.0 1.0"]]])
